@@ -54,6 +54,17 @@ CLAIMED = {
         "for every nt,nx<=8, nta<=3 on each run (exhaustive).",
    ref="5/C04", note=TB + "translator vlib/translators/layout.py (fail-closed grammar); ln(st/ast) is an input of the model.",
    technique="Coq proof over translator-regenerated index arithmetic + exhaustive translation validation + exact conformance via vm_compute"),
+ "C01": dict(
+   text="Proof over Q, for any number of rows and unknowns: the normal equations <=> global minimiser of the weighted SSR (T1, T2), fitted values "
+        "unique across optima (T3), per-column form of the normal equations; for every nt and every section list, row t*nxs+j of the row-form "
+        "design model is the Raman equation of location j at time t with its own observation (T5). The own-variance clause (T6) is REFUTED for "
+        "the weight order the code uses (x-major ravel) and PARTIAL (nt=1 or nxs=1): finding F1, a KNOWN FINDING (its repair moves a pinned test "
+        "value). The dyadic conformance evaluators are proved to compute the rational quantities of the theorems. Each run compares X, y, w of "
+        "solver='external' with the hand-written row model and judges p_val/p_cov by exact residual tests (normal equations, N*Cov = s2*I, "
+        "(n-p)*s2 = SSR) in exact dyadic arithmetic with certified reciprocals, under the code's and under own-variance weights, incl. a 10 m - 10 km "
+        "scale family.",
+   ref="5/C01", note=TB + "LSQR and LAPACK lstsq are judged (tolerance 2^-23 on scaled residuals), not modelled; ln and reciprocals enter as certified "
+        "float approximants.", technique="Coq proof of WLS optimality + row-form model; exact dyadic residual tests via vm_compute"),
 }
 NA = {}
 ALL = [f"C{i:02d}" for i in range(1, 21)]
